@@ -287,11 +287,17 @@ enum How {
     ParseHan,
     ParseLatex,
     Clone,
+    /// built by the constructors on a freshly spawned thread and handed over
+    Thread,
 }
 
 fn build_how(t: &TD, how: How, rng: &mut Rng) -> Option<Term> {
     match how {
         How::Ctor | How::Clone => Some(t.build()),
+        How::Thread => {
+            let d = t.clone();
+            std::thread::spawn(move || d.build()).join().ok()
+        }
         How::Mixed => Some(build_mixed(t, rng)),
         How::ParseAscii | How::ParseHan | How::ParseLatex => {
             let f = match how {
@@ -335,6 +341,7 @@ fn how_name(h: How) -> &'static str {
         How::ParseHan => "parse-han",
         How::ParseLatex => "parse-latex",
         How::Clone => "clone",
+        How::Thread => "ctor-on-another-thread",
     }
 }
 
@@ -369,7 +376,7 @@ pub fn run(ctx: &mut Ctx, hash: bool) {
     let names = common_safe_names();
     let g = Gen { names: &names, max_depth: 6, max_arity: 4, placeholders: true, set_bias: true };
     let mut rng = ctx.rng(if hash { 0xC07 } else { 0xC06 });
-    let hows = [How::Ctor, How::Mixed, How::ParseAscii, How::ParseHan, How::ParseLatex, How::Clone];
+    let hows = [How::Ctor, How::Mixed, How::ParseAscii, How::ParseHan, How::ParseLatex, How::Thread, How::Clone];
     let reps = if ctx.thorough { 6 } else { 8 };
     let n = if hash { ctx.share(60_000, 4_000_000) } else { ctx.share(80_000, 6_000_000) };
 
@@ -400,7 +407,7 @@ pub fn run(ctx: &mut Ctx, hash: bool) {
                 };
                 let da = mk(&perms[0], false);
                 let db = mk(p, p[0] % 2 == 1);
-                for how in [How::Ctor, How::ParseAscii] {
+                for how in [How::Ctor, How::ParseAscii, How::Thread] {
                     ctx.report.eval();
                     ctx.report.bump("family.small-scope");
                     if has_nested_unordered(&da) {
@@ -408,6 +415,35 @@ pub fn run(ctx: &mut Ctx, hash: bool) {
                     }
                     if let Some(w) = pair_failure(&da, &db, How::Ctor, how, hash, 8, &mut rng) {
                         report_failure(ctx, &da, &db, How::Ctor, how, hash, w, "small-scope", &mut rng);
+                    }
+                }
+            }
+        }
+    }
+
+    // (0b) large arities: unordered compounds with 17..48 distinct members, two insertion orders,
+    // bare and nested in another unordered compound; built on this thread and on another one
+    for (ki, k) in SET_KINDS.iter().enumerate() {
+        for arity in [17usize, 18, 24, 33, 48] {
+            idx += 1;
+            if !ctx.mine(idx) {
+                continue;
+            }
+            let members: Vec<TD> = (0..arity).map(|i| TD::word(&format!("m{}", i))).collect();
+            let mut other = members.clone();
+            rng.shuffle(&mut other);
+            let a = TD::comp(*k, members);
+            let b = TD::comp(*k, other);
+            let outer = SET_KINDS[(ki + 1) % SET_KINDS.len()];
+            let na = TD::comp(outer, vec![a.clone(), TD::word("z")]);
+            let nb = TD::comp(outer, vec![TD::word("z"), b.clone()]);
+            for (da, db) in [(&a, &b), (&na, &nb)] {
+                for how in [How::Ctor, How::Thread, How::ParseAscii] {
+                    ctx.report.eval();
+                    ctx.report.bump("family.large-arity");
+                    ctx.report.nontrivial(&format!("{}≟{}", da.canon(), db.canon()));
+                    if let Some(w) = pair_failure(da, db, How::Ctor, how, hash, 4, &mut rng) {
+                        report_failure(ctx, da, db, How::Ctor, how, hash, w, "large-arity", &mut rng);
                     }
                 }
             }
@@ -445,7 +481,7 @@ pub fn run(ctx: &mut Ctx, hash: bool) {
         if hash && da.canon() != db.canon() {
             continue;
         }
-        let how_a = *rng.pick(&hows[..5]);
+        let how_a = *rng.pick(&hows[..6]);
         let how_b = *rng.pick(&hows);
         let how_b = if how_b == How::Clone && da != db { How::Ctor } else { how_b };
         ctx.report.eval();
@@ -507,6 +543,7 @@ pub fn replay(ctx: &mut Ctx, d: &J, hash: bool) -> Option<()> {
         "parse-han" => How::ParseHan,
         "parse-latex" => How::ParseLatex,
         "clone" => How::Clone,
+        "ctor-on-another-thread" => How::Thread,
         _ => How::Ctor,
     };
     let ha = parse_how(&jstr(d, "how_a").unwrap_or_default());
